@@ -135,13 +135,33 @@ def run(repo, rep, tier):
         rep.check(okf, "R11.4", tq, "tokens are stamped with the file name",
                   construct="token-filename-forwarded", where=L.where(tf))
     filename_chain(repo, rep, "R11.4")
+    L.whitelist_rule(repo, rep, "R11.5")
+    # constructing a template computes its cache key: that must not fail
+    # for any environment (C15 owns the key)
+    from . import c15 as _c15
+    L.borrow(repo, rep, "R11.5", "C15", _c15.versions_total,
+             ("version-none-guarded",))
+    # a valid multi-part statement is not rejected for a ';' that only
+    # appears once an entity is decoded (C09 owns the element details)
+    from . import c09 as _c09
+    L.borrow(repo, rep, "R11.5", "C09", _c09.element_details,
+             ("multipart-complete",))
     L.state_rule(repo, rep)
 
 
 def filename_chain(repo, rep, rule="R11.4"):
     """The template's file name reaches the tokenizer: parse() hands it to
     the program (third positional argument of Program.__init__, or by
-    keyword), the program hands it to its tokenizer."""
+    keyword), the program hands it to its tokenizer, the token keeps it."""
+    tn = repo.func("chameleon.tokenize.Token.__new__")
+    st = [a for a in ast.walk(tn.node) if isinstance(a, ast.Assign)
+          and isinstance(a.targets[0], ast.Attribute)
+          and a.targets[0].attr == "filename"]
+    rep.check(bool(st) and all(any(
+        isinstance(x, ast.Name) and x.id == "filename"
+        for x in ast.walk(a.value)) for a in st), rule, tn.qualname,
+        "a token keeps the file name it is made with",
+        construct="filename-chain:token", where=L.where(tn))
     pi = repo.func("chameleon.program.ElementProgram.__init__")
     prm = [x.arg for x in pi.node.args.args]
     pos = prm.index("filename") - 1 if "filename" in prm else None
@@ -988,6 +1008,15 @@ def _location(repo, rep):
     if isinstance(final, ast.Tuple) and len(final.elts) == 2:
         ok_line = norm(lin(final.elts[0])) == {"NL": 1, "": 1}
         ok_col = norm(lin(final.elts[1])) == {"pos": 1, "LAST": -1, "": -1}
+    # every exit gives a (line, column) pair: a token without a source
+    # (one composed by an expression type) has no line, its location is
+    # still unpacked by the error report
+    rets = [r_ for r_ in ast.walk(f.node) if isinstance(r_, ast.Return)]
+    rep.check(bool(rets) and all(
+        isinstance(r_.value, ast.Tuple) and len(r_.value.elts) == 2
+        for r_ in rets), "R11.6", f.qualname, "every exit of location "
+        "returns a (line, column) pair", construct="location-pair",
+        where=wh, detail="; ".join(src(r_) for r_ in rets))
     rep.check(ok_line, "R11.6", f.qualname, "line = 1 + number of '\\n' in "
               "source[:pos] (the only line separator of the parsed text)",
               construct="location-line", where=wh, detail=detail)
